@@ -286,7 +286,46 @@ def run(F, chk):
     chk.instance(R2, ok=ok, sample={"Load_success_path_runs_PrepareData": ok})
     if not ok:
         chk.violation("R19.2", "C19/R19.2:Load", where(load), "Load can return success without running PrepareData (texture paths stay uncleaned)")
-    chk.floor(R2, 2)
+    # what the clean-up reads of the model's own state must be in place when Load runs it: a member that Load takes from its
+    # options and that TrimTexturePaths (or a helper lambda of it) reads is assigned before the PrepareData call on every path
+    opt_ids = {p_["id"] for p_ in load.get("params", []) if "Options" in (p_.get("ct") or p_.get("t") or "")}
+    trim_fns = [trim] + [g for g in F.fns.values() if g.get("lambda_parent") == trim["id"]]
+    read_by_trim = {x["name"] for g in trim_fns for x in walk(g.get("body") or {}) if x["k"] == "Member" and x.get("owner") == NIF and
+                    x.get("mk", "field") == "field"}
+    nif_fields = {f_["name"] for f_ in (F.recs.get(NIF) or {}).get("fields", [])}
+    for g in trim_fns:
+        for x in walk(g.get("body") or {}):
+            if x["k"] == "Lambda":
+                read_by_trim |= {c_.get("name") for c_ in x.get("caps", []) if c_.get("name") in nif_fields}  # `[&isTerrain = isTerrain]`
+    opt_members = {}
+    for n in walk(load["body"]):
+        if n["k"] == "Assign" and n["op"] == "=" and is_node(n["l"]) and n["l"]["k"] == "Member" and n["l"].get("owner") == NIF and \
+                any(x["k"] == "Ref" and x.get("id") in opt_ids for x in walk(n["r"])):
+            opt_members[n["l"]["name"]] = n
+    for name, asg in sorted(opt_members.items()):
+        if name not in read_by_trim:
+            continue
+
+        class O(flow.Flow):
+            def on_node(self, n, st):
+                if st is None:
+                    return st
+                if n is asg:
+                    return st | {("D", "opt-set")}
+                if n["k"] == "Call" and n.get("fn") == "nifly::NifFile::PrepareData" and ("D", "opt-set") not in st:
+                    return st | {("D", "prepared-before-option")}
+                return st
+
+        o_ = O(F, load)
+        o_.run()
+        bad = any(("D", "prepared-before-option") in (st or ()) for _, _, st in o_.exits)
+        chk.instance(R2, ok=not bad, sample={"option_member": name, "stored_before_PrepareData": not bad})
+        if bad:
+            chk.violation("R19.2", "C19/R19.2:Load:%s" % name, where(load, asg),
+                          "Load stores the option `%s` only after PrepareData has run the texture clean-up, which reads it: the "
+                          "paths of a freshly loaded file are cleaned as if the option were off, and a later explicit clean-up "
+                          "changes them again" % name)
+    chk.floor(R2, 3)
 
     chk.assumptions += ["the regex pipeline's canonical form, idempotence, terrain prefix handling and termination are string "
                         "semantics: not decided (an observed candidate: a capitalised `Textures\\\\` path in terrain mode is "
